@@ -7,6 +7,7 @@ import (
 	"encoding/hex"
 	"fmt"
 	"io"
+	"math/big"
 	"net/http/httptest"
 	"os"
 	"path/filepath"
@@ -26,6 +27,7 @@ import (
 	"verif/harness/gen"
 	"verif/harness/refmodel"
 	"verif/harness/wire"
+	"verif/harness/xtree"
 )
 
 // Target is one top-level decode target.
@@ -486,7 +488,7 @@ func Spec() *core.Spec {
 			"child-beyond-parent extent pairs with two different fillers, Stream.Recv under chunking and the HTTP handler with three content types; " +
 			"each call runs under panic, canary/mutation, determinism and hang monitors. distinct = distinct (encoding, target, input bytes)",
 		Assumptions: []string{"inputs are bounded by 64 KiB except the nesting ladders (<= 1 MiB, the server's transport limit)", "the decoders' answers are not judged here (C01/C03/C18), only that they answer"},
-		Required:    []string{"decodes.ttlv", "decodes.xml", "decodes.json", "accepted", "rejected", "extent_pairs", "extent_walks", "stream_recvs", "http_requests"},
+		Required:    []string{"decodes.ttlv", "decodes.xml", "decodes.json", "accepted", "rejected", "extent_pairs", "extent_walks", "nested_extent.accepted.mode0.xml", "nested_extent.accepted.mode0.json", "nested_extent.accepted.mode1.xml", "nested_extent.accepted.mode2.xml", "nested_extent.accepted.mode1.ttlv", "stream_recvs", "http_requests"},
 		EvalCounter: "decodes",
 		Families: []core.Family{
 			{Name: "bin-ladder", N: nOf(400, 6000), Run: func(c *core.Ctx, r *core.Rand, i int) {
@@ -502,6 +504,7 @@ func Spec() *core.Spec {
 				Generators["bin-nesting"](r, i, func(enc string, t *Target, data []byte, class string) { Probe(c, "C02", enc, t, data, class) }, c.Distinct)
 			}},
 			{Name: "bin-extent", N: nOf(1000, 20000), Run: func(c *core.Ctx, r *core.Rand, i int) { extentCase(c, r, i) }},
+			{Name: "nested-extent", N: nOf(3000, 90000), Run: nestedExtentCase},
 			{Name: "json-mut", N: nOf(5000, 100000), Run: func(c *core.Ctx, r *core.Rand, i int) {
 				Generators["json-mut"](r, i, func(enc string, t *Target, data []byte, class string) { Probe(c, "C02", enc, t, data, class) }, c.Distinct)
 			}},
@@ -669,6 +672,198 @@ func extentCase(c *core.Ctx, r *core.Rand, i int) {
 	if strings.HasPrefix(ra, "value") {
 		c.Violation(sig+":accepted", "a child item whose declared length exceeds the extent of its enclosing structure is accepted (its value necessarily comes from outside that extent)",
 			map[string]any{"input": hex.EncodeToString(a), "result": trim(ra)})
+	}
+}
+
+// nestedExtentCase: nothing placed inside a nested structure may become content of the enclosing one.
+// A valid message M is taken as a tree; one nested structure S that has following siblings receives trailing
+// children: an element of an unknown type and copies of S's following siblings with altered values. Whatever
+// the decoder makes of S itself, the rest of the decoded message must be what M alone decodes to (or the
+// document is rejected).
+func nestedExtentCase(c *core.Ctx, r *core.Rand, i int) {
+	enc := []string{"xml", "json", "ttlv"}[i%3]
+	g := gm(r, r.Intn(5), gen.TextASCII)
+	var msg any
+	var t *Target
+	if r.Bool() {
+		m := g.Request(nil)
+		msg, t = &m, TargetByName("RequestMessage")
+	} else {
+		m := g.Response(nil)
+		msg, t = &m, TargetByName("ResponseMessage")
+	}
+	orig := ttlv.MarshalTTLV(msg)
+	root, err := wire.Parse(orig)
+	if err != nil {
+		return
+	}
+	type site struct{ path []int }
+	var sites []site
+	var walk func(n *wire.Node, path []int)
+	walk = func(n *wire.Node, path []int) {
+		for k := range n.Children {
+			ch := &n.Children[k]
+			if ch.Type == wire.Structure {
+				if k < len(n.Children)-1 {
+					sites = append(sites, site{append(append([]int{}, path...), k)})
+				}
+				walk(ch, append(append([]int{}, path...), k))
+			}
+		}
+	}
+	walk(&root, nil)
+	if len(sites) == 0 {
+		c.Count("nested_extent.no-site", 1)
+		return
+	}
+	st := sites[r.Intn(len(sites))]
+	var alter func(n wire.Node) wire.Node
+	alter = func(n wire.Node) wire.Node {
+		out := n
+		switch n.Type {
+		case wire.Structure:
+			out.Children = make([]wire.Node, len(n.Children))
+			for k := range n.Children {
+				out.Children[k] = alter(n.Children[k])
+			}
+		case wire.Integer:
+			out.Int = int64(int32(n.Int) ^ 0x55)
+		case wire.LongInteger, wire.DateTime:
+			out.Int = n.Int + 86400
+		case wire.Interval:
+			out.Int = (n.Int + 7) & 0x7FFFFFFF
+		case wire.BigInteger:
+			out.Big = new(big.Int).Add(n.Big, big.NewInt(1))
+		case wire.Boolean:
+			out.Int = 1 - n.Int
+		case wire.TextString:
+			out.Bytes = append(append([]byte{}, n.Bytes...), []byte("~moved")...)
+		case wire.ByteString:
+			out.Bytes = append(append([]byte{}, n.Bytes...), 0xEE)
+		}
+		return out
+	}
+	// clone the tree down to the site and append the extras
+	var build func(n wire.Node, path []int, mode int) wire.Node
+	bogusTag := 0
+	build = func(n wire.Node, path []int, mode int) wire.Node {
+		out := n
+		out.Children = append([]wire.Node{}, n.Children...)
+		if len(path) == 1 {
+			s := out.Children[path[0]]
+			s.Children = append([]wire.Node{}, s.Children...)
+			following := out.Children[path[0]+1:]
+			bogusTag = following[0].Tag
+			if mode != 1 {
+				s.Children = append(s.Children, wire.Node{Tag: bogusTag, Type: wire.TextString, Bytes: []byte("@@BOGUS@@")})
+			}
+			if mode != 2 {
+				nf := 1 + r.Intn(len(following))
+				for _, f := range following[:nf] {
+					s.Children = append(s.Children, alter(f))
+				}
+			}
+			out.Children[path[0]] = s
+			return out
+		}
+		out.Children[path[0]] = build(out.Children[path[0]], path[1:], mode)
+		return out
+	}
+	mode := r.Intn(4) // 0,3: unknown-type element + moved siblings; 1: moved siblings only; 2: unknown-type element only
+	polluted := build(root, st.path, mode)
+	var base, doc []byte
+	bogusForm := ""
+	switch enc {
+	case "xml":
+		base, doc = xtree.WriteXML(root), xtree.WriteXML(polluted)
+		forms := []string{`type="Bogus" value="1"`, `type="" value="1"`, `type="structure" value="1"`, `type="TextString "  value="1"`, `type="0x0B" value="1"`, `type="Integer" value="x"`}
+		bogusForm = forms[r.Intn(len(forms))]
+		doc = bytes.Replace(doc, []byte(`type="TextString" value="@@BOGUS@@"`), []byte(bogusForm), 1)
+	case "json":
+		base, doc = xtree.WriteJSON(root), xtree.WriteJSON(polluted)
+		forms := []string{`"type":"Bogus","value":"1"`, `"type":"","value":"1"`, `"type":7,"value":"1"`, `"type":"structure","value":"1"`, `"type":null,"value":1`}
+		bogusForm = forms[r.Intn(len(forms))]
+		doc = bytes.Replace(doc, []byte(`"type":"TextString","value":"@@BOGUS@@"`), []byte(bogusForm), 1)
+	default:
+		base, doc = wire.Gen(root), wire.Gen(polluted)
+		if k := bytes.Index(doc, []byte("@@BOGUS@@")); k >= 8 {
+			ty := []byte{0x0B, 0x00, 0xFF, 0x7F}[r.Intn(4)]
+			doc[k-5] = ty
+			bogusForm = fmt.Sprintf("type byte 0x%02X", ty)
+		}
+	}
+	decode := func(d []byte, what string) (*wire.Node, string, bool) {
+		var v any
+		var derr error
+		if p, pv, stk := core.Guard(func() { v, derr = Decode(enc, append([]byte{}, d...), t) }); p {
+			c.Violation(core.PanicSig(pv, stk), fmt.Sprintf("%s decoder panicked on %s: %v", enc, what, pv), map[string]any{"input": show(enc, d), "stack": stk})
+			return nil, "", false
+		}
+		if derr != nil {
+			return nil, derr.Error(), true
+		}
+		var re []byte
+		if p, pv, stk := core.Guard(func() { re = ttlv.MarshalTTLV(v) }); p {
+			c.Violation(core.PanicSig(pv, stk), fmt.Sprintf("re-encoding the value decoded from %s panicked: %v", what, pv), map[string]any{"input": show(enc, d), "stack": stk})
+			return nil, "", false
+		}
+		n, perr := wire.Parse(re)
+		if perr != nil {
+			return nil, "re-encoding unparsable: " + perr.Error(), true
+		}
+		return &n, "", true
+	}
+	c.Count("nested_extent.docs."+enc, 1)
+	bt, berr, ok := decode(base, "an independently written valid document")
+	if !ok {
+		return
+	}
+	if bt == nil || !wire.Equal(root, *bt) {
+		// the independent writer's spelling of this message is not read back identically: not this family's business
+		c.Count("nested_extent.baseline-not-faithful", 1)
+		_ = berr
+		return
+	}
+	pt, perr, ok := decode(doc, "a nested structure with trailing children")
+	if !ok {
+		return
+	}
+	c.Distinct(core.HashBytes(doc))
+	if pt == nil {
+		c.Count("nested_extent.rejected", 1)
+		_ = perr
+		return
+	}
+	c.Count("nested_extent.accepted", 1)
+	c.Count(fmt.Sprintf("nested_extent.accepted.mode%d.%s", mode, enc), 1)
+	// prune S in both trees and compare the rest
+	prune := func(n wire.Node) (wire.Node, bool) {
+		var rec func(n wire.Node, path []int) (wire.Node, bool)
+		rec = func(n wire.Node, path []int) (wire.Node, bool) {
+			if path[0] >= len(n.Children) {
+				return n, false
+			}
+			out := n
+			out.Children = append([]wire.Node{}, n.Children...)
+			if len(path) == 1 {
+				if out.Children[path[0]].Type != wire.Structure {
+					return n, false
+				}
+				out.Children[path[0]] = wire.Node{Tag: out.Children[path[0]].Tag, Type: wire.Structure}
+				return out, true
+			}
+			ch, ok := rec(out.Children[path[0]], path[1:])
+			out.Children[path[0]] = ch
+			return out, ok
+		}
+		return rec(n, st.path)
+	}
+	a, _ := prune(root)
+	b, okb := prune(*pt)
+	if d := wire.Diff(a, b, ""); d != "" || !okb {
+		c.Violation("C02:nested-extent:"+enc+":enclosing-structure-takes-content-from-nested-one",
+			fmt.Sprintf("children appended inside a nested structure (tag %06X, then %s) change what is decoded OUTSIDE that structure: %s", bogusTag, bogusForm, trim(d)),
+			map[string]any{"input": show(enc, doc), "valid_document": show(enc, base), "mode": mode})
 	}
 }
 
